@@ -597,8 +597,10 @@ structure ExecOk (I : Sys → Prop) : Prop where
 
 theorem k_runInner' (hstub : ∀ c cis, Pres I (execCmd (fun _ _ => do fault "nested exec"; return none) c cis))
     (mode : Mode) (c : Nat) (sig : Sig) (raw : List Bytes) : Pres I (runInner mode c sig raw) := by
-  unfold runInner
-  exact k_runWith _ mode c sig raw false (fun args cis => k_special _ mode c (hstub c) _ args cis)
+  refine runInner_cases (P := fun m => Pres I m) mode c sig raw (fun _ => ?_) (fun _ => ?_)
+  · have hbody := k_scriptBody (I := I) _ (fun mode c name args cis => k_special _ mode c (hstub c) name args cis) mode c
+    unfold runScriptCmd; kpres
+  · exact k_runWith _ mode c sig raw false (fun args cis => k_special _ mode c (hstub c) _ args cis)
 
 variable (hx : ExecOk I)
 include hx
@@ -607,9 +609,8 @@ theorem k_special_stub (mode : Mode) (c : Nat) (name : String) (args : List Arg)
     Pres I (special (fun _ _ => do fault "nested exec"; return none) mode c name args cis) :=
   k_special _ mode c (hx.stub c) name args cis
 
-theorem k_runInner (mode : Mode) (c : Nat) (sig : Sig) (raw : List Bytes) : Pres I (runInner mode c sig raw) := by
-  unfold runInner
-  exact k_runWith _ mode c sig raw false (fun args cis => k_special_stub hx mode c _ args cis)
+theorem k_runInner (mode : Mode) (c : Nat) (sig : Sig) (raw : List Bytes) : Pres I (runInner mode c sig raw) :=
+  k_runInner' hx.stub mode c sig raw
 
 theorem k_runScriptCmd (mode : Mode) (c : Nat) (sig : Sig) (raw : List Bytes) (fromScript : Bool) :
     Pres I (runScriptCmd mode c sig raw fromScript) := by
